@@ -1223,6 +1223,14 @@ def emit_tag_transcription(ctx, rule):
         g = pc["guards"]
         ret = str(pc["ret"]).replace(" ", "")
         some = g.get("self.last_start_tag_name matches Some(_)")
+        if some is None and not g:
+            # the Option combinator form: last_start_tag_name.is_some_and(|last| [kind == EndTag &&] name == last)
+            flat_ret = ret.replace("(", "").replace(")", "")
+            okc = ret.startswith("self.last_start_tag_name.is_some_and(") and "current_tag_name" in ret and ("==**a1" in flat_ret or "==a1" in flat_ret) \
+                and "||" not in ret and "!=" not in ret and "is_none" not in ret
+            if not okc:
+                bad = bad or "appropriate end tag is decided as %s" % ret[:120]
+            continue
         if some is False and ret != "false":
             bad = bad or "with no start tag emitted yet the end tag counts as appropriate (%s)" % ret
         if some is True and g.get("self.current_tag_kind.get() matches EndTag") is not False:
@@ -1230,4 +1238,4 @@ def emit_tag_transcription(ctx, rule):
                 bad = bad or "appropriate end tag is decided as %s, not by comparing the tag name with the last start tag name" % ret
             if ret in ("true", "false") and not any("current_tag_name" in k and "last_start_tag_name" in k for k in g):
                 bad = bad or "appropriate end tag is answered %s without comparing the names" % ret
-    ctx.ob(rule, "appropriate-end-tag", bad is None and len(cells) >= 2, bad or "true only if a start tag was emitted and the names are equal", "html tokenizer have_appropriate_end_tag")
+    ctx.ob(rule, "appropriate-end-tag", bad is None and len(cells) >= 1, bad or "true only if a start tag was emitted and the names are equal", "html tokenizer have_appropriate_end_tag")
